@@ -172,6 +172,7 @@ def step (s : St) (e : Ev) : St × List File :=
   | .testStarted t => (onTestStarted s t, [])
   | .print text => ({ s with stdOutput := s.stdOutput ++ text }, [])
   | .failure f => (onFailure s f, [])
+  | .veryVerbose _ => (s, [])          -- `printVeryVerbose` → `printBuffer`, which does nothing here
   | .testEnded ms checks => (onTestEnded s ms checks, [])
   | .groupEnded ms => (onGroupEnded s ms, [writeGroup { s with groupExecTime := ms }])
   | .testsEnded _ => (s, [])
